@@ -99,7 +99,7 @@ def impl_oracle(c):
 
 
 def run(ck):
-    n = 300 if not ck.thorough else 6000
+    n = 3000 if not ck.thorough else 30000
     ck.gen()
     built = ck.coq_make(J.MODEL + PROOFS, clean=ck.thorough)
     ck.obligations = ck.count_statements(STATEMENT_FILES)
